@@ -39,6 +39,18 @@ PROPS = {
                      "ff's generic Field::pow (contract assumed here: pow(x,[e]) = x^e; it is C08's obligation)"],
         assumptions=[A['A5p'], A['A7'], "laws of f12pow in specs/f12pow.vrs (ring theory of the commutative ring of specs/tower.vrs)", A['D_FQ'], A['TOOLS']],
     ),
+    'C01': dict(
+        units_quick=['curve'], units_thorough=['curve'], timeout=600,
+        claim="curve_impl! point formulas (real bodies, both instantiations): double, add_assign, add_assign_mixed satisfy the chord-and-tangent law of "
+              "y^2 = x^3 + b case by case (P = O, Q = O, same point -> tangent relations, opposite points -> O, otherwise chord relations with Z3 != 0), "
+              "stated in cleared-denominator form over Jacobian triples, for all field values; negate, is_zero, zero, is_normalized exact. "
+              "G1: every ring identity discharged by Verus. G2: control flow and case analysis discharged by Verus on the real G2 instantiation, ring identities "
+              "transferred from the G1 instantiation (same macro text, T1).",
+        not_covered=["batch_normalization (iterator pipeline outside the verifier's Rust subset)",
+                     "the bridge from the relations to the abstract group (A3) and representation independence as a theorem",
+                     "G2 ring identities are not discharged by Verus (transfer T1)"],
+        assumptions=[A['A2'], A['A3'], "T1 an integer polynomial identity holds in every commutative ring (used to read G1's identities in Fq2)", A['D_FQ'], A['TOOLS']],
+    ),
 }
 
 HOOK_COMMITS = []
